@@ -275,3 +275,17 @@ Example C01_subquery_example :
   forallb fstep_ok [FT t] = true /\ forallb (fstep_okp pf (fun _ => true)) [FT t] = true /\
   map snd (nav_allf pf rm doc [FT t] ([], doc)) = [VObj [("a", VNull)]; VObj [("b", VNull)]; VObj [("a", VNull); ("b", VNull)]]%string.
 Proof. cbv zeta. do 3 (split; [vm_compute; reflexivity|]). vm_compute. reflexivity. Qed.
+
+(* the literal on the left (LitLeft.v): `$[?(2<=@.a)]` selects as `$[?(@.a>=2)]` *)
+From JP Require Import LitLeft.
+Example C01_literal_left_example :
+  let pf := fun s : string => if String.eqb s "2" then Some (num_of_Z 2) else None in
+  let rm := fun _ _ : string => false in
+  let doc := VArr [VObj [("a", VNum (num_of_Z 1))]; VObj [("a", VNum (num_of_Z 3))]; VObj [("a", VNum (num_of_Z 2))]; VObj [("b", VNum (num_of_Z 5))]]%string in
+  let p1 := [FQ [[BCL [50%N] OLe [RPlain (SDot [97%N])]]]] in
+  let p2 := [FQ [[BC [RPlain (SDot [97%N])] OGe [50%N]]]] in
+  text_of (fchain_path p1) = "$[?(2<=@.a)]"%string /\ text_of (fchain_path p2) = "$[?(@.a>=2)]"%string /\
+  forallb fstep_ok p1 = true /\ forallb (fstep_okp pf (fun _ => true)) p1 = true /\
+  nav_allf pf rm doc p1 ([], doc) = nav_allf pf rm doc p2 ([], doc) /\
+  map snd (nav_allf pf rm doc p1 ([], doc)) = [VObj [("a", VNum (num_of_Z 3))]; VObj [("a", VNum (num_of_Z 2))]]%string.
+Proof. cbv zeta. do 5 (split; [vm_compute; reflexivity|]). vm_compute. reflexivity. Qed.
